@@ -136,7 +136,8 @@ def tlc_histories(ctx, rng, n):
         objs = [dict(len=2, allow=4, require=0, exclude=0, allowChars=o("ab "), requireSets=[o("a b")], excludeChars=[]),
                 dict(len=2, allow=4, require=0, exclude=0, allowChars=o("ab "), requireSets=[o("a"), o("b")], excludeChars=[])]
         steps = list(h["steps"]) + [dict(op="call", obj=0, paths=2), dict(op="call", obj=1, paths=2)]
-        res.append(dict(kind="chist", objs=objs, steps=steps, maxTrials=0, failRateOne=1, tag="tlc-history"))
+        limited = any(st["op"] == "setlimits" for st in steps)      # the refusal decision only exists under the default failure limit
+        res.append(dict(kind="chist", objs=objs, steps=steps, maxTrials=0, failRateOne=0 if limited else 1, tag="tlc-history-limits" if limited else "tlc-history"))
     return res, total
 
 
@@ -193,6 +194,16 @@ def run(ctx):
         raise Undecided("non-vacuity witness failed: a lock left held by a failed call should block a later call in the model")
     ctx.cover["non_vacuity"] = ("with CacheDerived/PointerReceiver = TRUE TLC finds a history whose result reflects stale fields; with GlobalLock = TRUE "
                                 "a history in which a failed call blocks the next one")
+    # process-wide state: the configured limits are the caller's, the library keeps no memo (Process.tla)
+    ctx.model_check("MC_Process", "MC_Process.cfg", "every interleaving/history of 2 goroutines x 2 calls x 2 changes of the limits: the outcome is a function of "
+                    "the recipe and the limits configured at the call, only the caller changes the limits, nothing is remembered", workers=vlib.NCPU)
+    for cfg, inv, what in (("MC_Process_freeze.cfg", "ResultFollowsRecipeAndConfiguredLimits", "limits remembered from the first call"),
+                           ("MC_Process_memo.cfg", "ResultFollowsRecipeAndConfiguredLimits", "results remembered under a lossy key"),
+                           ("MC_Process_raise.cfg", "QuiescentLimits", "limits raised during a call and restored (not nesting-safe)")):
+        r = ctx.tlc("MC_Process", cfg, workers=4)
+        if r["violated"] != inv:
+            raise Undecided("non-vacuity witness failed: %s should violate %s in the model" % (what, inv))
+    ctx.cover["non_vacuity_process"] = "Process.tla with FreezeLimits / MemoByKey / RaiseLimits = TRUE: TLC refutes the stated invariant in each"
     hists = directed_char() + directed_wl() + [char_history(rng, rng.randint(12, 40 if quick else 60)) for _ in range(30 if quick else 500)]
     hists += [wl_history(rng, rng.randint(10, 30)) for _ in range(16 if quick else 250)]
     th, total = tlc_histories(ctx, rng, 200 if quick else 100000)
